@@ -419,6 +419,26 @@ impl<'s, M: Matcher, S: Sink> Core<'s, M, S> {
                         pos = buf.len();
                         continue;
                     }
+                    // When the line terminator is CRLF, an empty match can
+                    // occur between the `\r` and the `\n`, which is not
+                    // part of any line's content. So in that case, confirm
+                    // the match on the line with its terminator stripped.
+                    if self.config.line_term.is_crlf() {
+                        let slice = lines::without_terminator(
+                            &buf[line],
+                            self.config.line_term,
+                        );
+                        match self.matcher.is_match(slice) {
+                            Err(err) => {
+                                return Err(S::Error::error_message(err))
+                            }
+                            Ok(true) => return Ok(Some(line)),
+                            Ok(false) => {
+                                pos = line.end();
+                                continue;
+                            }
+                        }
+                    }
                     return Ok(Some(line));
                 }
                 Ok(Some(LineMatchKind::Candidate(i))) => {
